@@ -1,12 +1,7 @@
 //! C04 — elements reported as issuer-authenticated are bound to the signed MSO
 use crate::common::*;
 use crate::rauth::*;
-use crate::runner::{from_bytes, to_bytes};
 use crate::sess::*;
-use ciborium::Value;
-use isomdl::definitions::DigestAlgorithm;
-use p256::ecdsa::SigningKey;
-use rand::Rng;
 
 pub fn run(ctx: &mut Ctx) {
     let scenes = ctx.budget(4, 80);
@@ -19,22 +14,16 @@ pub fn run(ctx: &mut Ctx) {
             apply(alt, &sc, &mut pt, &mut rng);
             deliver(ctx, "data_auth", "c04.spec", &sc, &sc.rdr, &reg, "right-root", alt, &pt, None);
         }
-        // an authentic issuer-signed part of ANOTHER document type presented as the mDL, device-signed by its own device key
-        let dk2 = SigningKey::random(&mut rng);
-        let alg = [DigestAlgorithm::SHA256, DigestAlgorithm::SHA384, DigestAlgorithm::SHA512][rng.gen_range(0..3)];
-        let other = issue_with_key(&sc.pki, "org.example.other", new_namespaces(&mut rng), alg, false, cose_key_of(&dk2));
-        let mut pt = sc.plaintext.clone();
-        {
-            let isg = Value::Map(vec![
-                (Value::Text("nameSpaces".into()), Value::Map(other.namespaces.iter().map(|(ns, items)| (Value::Text(ns.clone()), Value::Array(items.iter().map(|it| Value::Tag(24, Box::new(Value::Bytes(it.inner_bytes.clone())))).collect()))).collect())),
-                (Value::Text("issuerAuth".into()), from_bytes(&isomdl::cbor::to_vec(&other.issuer_auth).unwrap()).unwrap()),
-            ]);
-            if let Some(Value::Array(docs)) = map_get_mut(&mut pt, "documents") {
-                if let Some(slot) = map_get_mut(&mut docs[0], "issuerSigned") { *slot = isg; }
+        // the same alterations delivered as the SECOND response of a session whose first response was authentic
+        if let Some(warm) = warmed_reader(&sc, &sc.rdr) {
+            for alt in &c04_alts(&mut rng, false) {
+                let mut pt = sc.plaintext.clone();
+                apply(alt, &sc, &mut pt, &mut rng);
+                deliver(ctx, "data_auth_round2", "c04.spec", &sc, &warm, &reg, "right-root", alt, &pt, None);
             }
-            let _ = to_bytes;
-        }
-        resign_device(&sc, &mut pt, &dk2, MDL);
+        } else { ctx.count("round2:not-reached"); }
+        // an authentic issuer-signed part of ANOTHER document type presented as the mDL, device-signed by its own device key
+        let pt = other_document_as_mdl(&sc, &mut rng, MDL);
         deliver(ctx, "doctype_mismatch", "c04.spec", &sc, &sc.rdr, &reg, "right-root", &Alt::None, &pt, None);
         ctx.rng = rng;
     }
